@@ -118,7 +118,11 @@ def correspondence(ctx):
                  "record start / record stop / sign -o below a regular file, into a missing directory, onto a name taken by a directory), sign "
                  "with a public key, --key / --cert file missing, match-products and key layout / key id on missing, garbage or directory input; "
                  "verify with an unreadable --intermediate-certs (missing file, directory). Every link of every chain is also checked for its "
-                 "wrapper (legacy unless --use-dsse). Directory shapes: the working directory of run/record, the metadata directory (-d, relative, absolute, "
+                 "wrapper (legacy unless --use-dsse). dirs-through-symlinks: -d (run / record) and --link-dir (verify) are given as a symlink to the directory, a symlink with "
+                 "trailing slash, a chain of two symlinks, or a relative path with .. segments (7 featured chains, a quarter of the random "
+                 "ones), with all tamperings as twins. sign-verify/duplicate-keyid: the layout signed with `sign`, a signed field edited, signed "
+                 "again with the same key(s) (two entries per key id, stale first), the entries reversed by hand, legacy and DSSE: `sign "
+                 "--verify` and `verify` must answer what the library answers on the same file. Directory shapes: the working directory of run/record, the metadata directory (-d, relative, absolute, "
                  "trailing slash), verify's working directory, link directory and layout file name are drawn from names with %, %s, %d, %2F, [1], "
                  "*, ?, backslash, spaces, {x} and non-ASCII; in a quarter of the chains verify's working directory is entered through a "
                  "symlink (PWD = symlink path) so that a relative ../links differs between the kernel's and a lexical reading; CLI and library "
